@@ -582,6 +582,13 @@ class SpecGen:
     def gen_struct(self, path):
         name = self.type_name(path)
         rng = self.rng
+        if rng.random() < 0.03:
+            # a struct element without any child (not even a comment)
+            t = TypeInfo(name, "struct", path)
+            t.min_size, t.fixed, t.bounded, t.first_consumes, t.first_plain, t.depth = 0, 0, True, False, False, 1
+            self._register(t)
+            self.xml[path].append(f'    <struct name="{name}"/>')
+            return t
         wb = [rng.choice([300, 3000, WEIGHT_LIMIT])]
         w0 = wb[0]
         body, info = self.gen_body(path, 0, False, False, set(), 8, 2, wb)
